@@ -142,8 +142,9 @@ class Evaluator(object):
             if name == "||":
                 return any(self.ev(a) for a in args)
             if name == "$present":
-                key = ("present",) + tuple(p["canonical_name"]["object_path"][-1] for p in args[0]["field_reference"]["path"])
-                return self.env.setdefault(key, True)
+                # presence of a field is not an assignable input: it follows from that field's own condition, which may
+                # even be a constant (the evaluator used to assume "present"; a field under a false constant is not)
+                raise Unk()
             if name in ("$upper_bound", "$lower_bound"):
                 raise Unk()  # judged separately as bounds of their argument
             vals = [self.ev(a) for a in args]
@@ -177,6 +178,11 @@ class Evaluator(object):
             raise Unk()
         key = tuple(".".join(p["canonical_name"]["object_path"]) for p in path)
         if kind == "field" and "read_transform" in obj[1]:
+            ec = obj[1].get("existence_condition", {})
+            if ec.get("type", {}).get("boolean", {}).get("value") is False or ec.get("boolean_constant", {}).get("value") is False:
+                # the field sits under a condition that is a false constant: it never exists, so no environment gives it
+                # a value (the property speaks of in-range values of the fields an expression mentions)
+                raise Unk()
             if len(path) > 1:
                 # a virtual field reached through another field: its own references are relative to
                 # that instance; evaluate with a per-instance sub-environment
